@@ -156,6 +156,7 @@ class Stats(object):
         self.model_hits = 0
         self.canon_slices = 0
         self.distinct_queries = set()
+        self.fresh_solver_calls = 0
 
 
 class Interp(object):
@@ -166,7 +167,9 @@ class Interp(object):
         self._info = {}
         self.stats = Stats()
         self.solver = z3.Solver()
-        self.solver.set("timeout", solver_timeout_ms)
+        self.soft_timeout_ms = min(solver_timeout_ms, int(os.environ.get("PSX_SOFT_TIMEOUT_MS", "20000")))
+        self.hard_timeout_ms = solver_timeout_ms
+        self.solver.set("timeout", self.soft_timeout_ms)
         self.solver_timeout_ms = solver_timeout_ms
         self.base_constraints = []
         self.log = []             # decision log: [alternatives(list), index]
@@ -177,6 +180,7 @@ class Interp(object):
         self.options = {"set_order": "natural"}
         self.deadline = None
         self.path_hooks = []
+        self.fresh_mode = False
         self.in_prefix = False
         self._oracle = {}
         self._oseq = 0
@@ -202,20 +206,47 @@ class Interp(object):
     # ------------------------------------------------------------------------------------------
     # solver / path exploration
     def _check(self, *extra):
-        """(verdict, model) of the current path condition plus `extra`"""
+        """(verdict, model) of the current path condition plus `extra`.
+
+        Normally one incremental solver whose push/pop stack follows the search.  If a query exceeds the soft limit
+        there (large regex encodings can stall z3's incremental core even on easy instances), the job switches to
+        *fresh mode*: every later query is decided by a new, non-incremental solver given the whole path condition."""
         t = time.time()
         if self.deadline is not None and t > self.deadline:
             raise Inconclusive("time budget exhausted")
-        self.solver.push()
-        try:
-            for e in extra:
-                self.solver.add(e if not isinstance(e, bool) else z3.BoolVal(e))
-            r = str(self.solver.check())
-            m = self.solver.model() if r == "sat" else None
-        finally:
-            self.solver.pop()
-        dt = time.time() - t
         st = self.stats
+        r = None
+        m = None
+        if not self.fresh_mode:
+            self.solver.push()
+            try:
+                for e in extra:
+                    self.solver.add(e if not isinstance(e, bool) else z3.BoolVal(e))
+                if os.environ.get("PSX_DUMPQ"):
+                    Interp._dumpn = getattr(Interp, "_dumpn", 0) + 1
+                    with open(os.path.join(os.environ["PSX_DUMPQ"], "f%03d.smt2" % Interp._dumpn), "w") as fh:
+                        fh.write(self.solver.to_smt2())
+                r = str(self.solver.check())
+                m = self.solver.model() if r == "sat" else None
+                if r == "unknown":
+                    st.unknown += 1
+                    self.fresh_mode = True          # never touch the incremental solver again
+                else:
+                    self.solver.pop()
+            except z3.Z3Exception:
+                self.fresh_mode = True
+                r = "unknown"
+        if self.fresh_mode and (r is None or r == "unknown"):
+            s2 = z3.Solver()
+            s2.set("timeout", self.hard_timeout_ms)
+            for c in self.pc:
+                s2.add(c if not isinstance(c, bool) else z3.BoolVal(c))
+            for e in extra:
+                s2.add(e if not isinstance(e, bool) else z3.BoolVal(e))
+            r = str(s2.check())
+            m = s2.model() if r == "sat" else None
+            st.fresh_solver_calls += 1
+        dt = time.time() - t
         st.solver_calls += 1
         st.solver_time += dt
         if dt > st.max_query:
@@ -229,11 +260,20 @@ class Interp(object):
                 except Exception:
                     pass
         if TRACE:
-            sys.stderr.write("[psx] query #%d depth=%d pos=%d %s %.3fs\n" % (st.solver_calls, self.depth, self.pos, r, dt))
-            if dt > 2:
-                import traceback
-                sys.stderr.write("      slow: %s\n%s\n" % (" ".join(str(extra[0]).split())[:300] if extra else "", "".join(traceback.format_stack(limit=14)[:-1])[-2500:]))
+            sys.stderr.write("[psx] query #%d depth=%d pos=%d %s %.3fs%s\n" % (st.solver_calls, self.depth, self.pos, r, dt, " (fresh)" if self.fresh_mode else ""))
         return r, m
+
+    def _spush(self):
+        if not self.fresh_mode:
+            self.solver.push()
+
+    def _spop(self):
+        if not self.fresh_mode:
+            self.solver.pop()
+
+    def _sadd(self, c):
+        if not self.fresh_mode:
+            self.solver.add(c if not isinstance(c, bool) else z3.BoolVal(c))
 
     def holds(self, t):
         """value of a Bool term in the cached model of the current path (None when unknown)"""
@@ -375,10 +415,10 @@ class Interp(object):
         if self.pos <= self.keep:
             return                      # replaying the retained prefix
         self.in_prefix = False
-        self.solver.push()
+        self._spush()
         self.depth += 1
         if constraint is not True:
-            self.solver.add(constraint if not isinstance(constraint, bool) else z3.BoolVal(constraint))
+            self._sadd(constraint)
 
     def assume(self, cond):
         if isinstance(cond, SymBool):
@@ -401,7 +441,7 @@ class Interp(object):
             raise PathInfeasible()
         self.model = m
         self.pc.append(cond)
-        self.solver.add(cond)
+        self._sadd(cond)
 
     def add_side(self, cons):
         """definitional constraints of fresh variables (never make a path infeasible)"""
@@ -413,7 +453,7 @@ class Interp(object):
         self._flush()
         for c in cons:
             self.pc.append(c)
-            self.solver.add(c)
+            self._sadd(c)
             if self.model is not None and self.holds(c) is not True:
                 self.model = None
 
@@ -439,12 +479,12 @@ class Interp(object):
         npaths = 0
         while True:
             if npaths == 0:
-                self.solver.push()
+                self._spush()
                 self.depth = 1
                 self.in_prefix = False
             else:
                 while self.depth > self.keep + 1:
-                    self.solver.pop()
+                    self._spop()
                     self.depth -= 1
                 self.in_prefix = True
             self.pos = 0
@@ -508,7 +548,7 @@ class Interp(object):
                 self.log.pop()
             if not self.log or (max_paths is not None and npaths >= max_paths):
                 while self.depth > 0:
-                    self.solver.pop()
+                    self._spop()
                     self.depth -= 1
                 self.keep = 0
                 CURRENT[0] = None
